@@ -648,6 +648,14 @@ class Ledger:
         if s['cls'] != 'bounds':
             return None
         b = s['body']
+        # loop form: `for pair in v.windows(k) { .. pair[i] .. }`
+        t0 = b.term(s['block'])
+        tb0 = self.tb(b)
+        ops0 = [strip_sites(tb0.operand_term(o, s['block'], len(b.blocks[s['block']]['stmts']))) for o in t0.get('ops', [])]
+        if len(ops0) == 2 and ops0[0][0] == 'len' and ops0[0][1][0] == 'elem' and const_int(ops0[1]) is not None:
+            w0 = m_call(strip_sites(detry(elem_source(ops0[0][1][1]))), name='windows')
+            if w0 is not None and const_int(w0[1]) is not None and const_int(ops0[1]) < const_int(w0[1]):
+                return ('D-LEN', 'index %d into a window of exactly %d elements (loop over slice::windows)' % (const_int(ops0[1]), const_int(w0[1])))
         if b.dk != 'Closure':
             return None
         parent = self.F.closure_host(b)
